@@ -144,7 +144,7 @@ func describeCase(c *EvalCase) interface{} {
 	}
 	// the same layout as corpus/eval-*.json, so a replay file's case can be copied into the corpus by hand
 	return map[string]interface{}{
-		"secondaryKey": c.Secondary, "logger": c.Logger, "recorder": c.Recorder, "nilLoggerOption": c.NilLoggerOption,
+		"secondaryKey": c.Secondary, "logger": c.Logger, "recorder": c.Recorder, "nilLoggerOption": c.NilLoggerOption, "nilOptionFirst": c.NilOptionFirst,
 		"flag":        map[string]interface{}{"key": c.Top.Key, "form": c.Top.Form, "json": json.RawMessage(c.Top.Doc.Text())},
 		"store_flags": items(c.Flags), "store_segments": items(c.Segs),
 		"big_segment_provider": c.Prov, "context": ctxDesc, "context_spec": c.Ctx,
